@@ -13,7 +13,7 @@ import (
 // Small agreement rules (DESIGN.md §3 M, P, Q, S): M1 (C14), P1 (C07), P2 (C14), Q1–Q3 (C17), S1–S2 (C19).
 
 func init() {
-	registerEngine("MP", []string{"M1", "P1", "P2", "P3"}, runEngineMP)
+	registerEngine("MP", []string{"M1", "P1", "P2", "P3", "P4"}, runEngineMP)
 	registerEngine("Q", []string{"Q1", "Q2", "Q3", "Q4"}, runEngineQ)
 	registerEngine("S", []string{"S1", "S2", "S3", "S4", "S5", "S6", "S7"}, runEngineS)
 }
@@ -317,6 +317,99 @@ func runEngineMP(p *Prog, o *obls) {
 			o.bad("P2", key, p.Pos(c.Fn.Pos()), strings.Join(bad, "; "))
 		} else {
 			o.ok("P2", key, p.Pos(c.Fn.Pos()), fmt.Sprintf("%d injected write site(s), each only reachable after the identity forward", len(inj)))
+		}
+	}
+	// ---- P4: what a protecting writer forwards, it has buffered. A writer closure that injects packets of its own
+	// (repair packets computed over a batch of the application's packets) keeps a copy of every packet of the protected
+	// stream it forwards: the batch the encoder is given is the run of packets that left. A pass-through added in front
+	// of the buffering — "padding-only packets need no protection" — leaves a hole in the batch: the encoder refuses a
+	// batch whose sequence numbers are not consecutive, and a whole group of real media packets goes out without repair
+	// packets. Every identity forward of such a closure is preceded, on every path from its entry, by a statement that
+	// keeps something derived from the header or payload in memory that outlives the call (or hands them to a
+	// repository function), unless it lies behind a test that the packet is not the stream's (header.SSRC differs).
+	for _, c := range closures {
+		if c.Kind != RTPWriter {
+			continue
+		}
+		id, inj := identityForwards(p, c)
+		if len(inj) == 0 || len(id) == 0 || len(c.Fn.Params) < 2 {
+			continue
+		}
+		fn := c.Fn
+		pp := packetParams(c)
+		if len(pp) < 2 {
+			continue
+		}
+		hdr, pay := ssa.Value(pp[0]), ssa.Value(pp[1])
+		fromPacket := func(v ssa.Value) bool {
+			return p.backwardReaches(v, func(w ssa.Value) bool { return w == hdr || w == pay })
+		}
+		isKeep := func(in ssa.Instruction) bool {
+			switch x := in.(type) {
+			case *ssa.Store:
+				root := p.origin(addrRoot(x.Addr))
+				if al, ok := cellAddr(addrRoot(x.Addr)).(*ssa.Alloc); ok && al.Parent() == fn {
+					return false
+				}
+				if al, ok := root.(*ssa.Alloc); ok && al.Parent() == fn {
+					return false
+				}
+				return fromPacket(x.Val)
+			case *ssa.Call:
+				if isChainWrite(p, x) {
+					return false
+				}
+				sc := x.Call.StaticCallee()
+				if sc == nil || !p.InUniverse(sc) || sc.Blocks == nil {
+					return false
+				}
+				for _, a := range x.Call.Args {
+					if o := p.origin(a); o == hdr || o == pay {
+						return true
+					}
+				}
+			}
+			return false
+		}
+		keeps := 0
+		instrsOf(fn, func(in ssa.Instruction) {
+			if isKeep(in) {
+				keeps++
+			}
+		})
+		if keeps == 0 {
+			continue
+		}
+		entry := fn.Blocks[0].Instrs[0]
+		var bad []string
+		for _, w := range id {
+			foreign := false
+			for _, f := range dominatingFactsInstr(w) {
+				f = normFact(f)
+				bo, ok := f.cond.(*ssa.BinOp)
+				if !ok || !(bo.Op == token.NEQ && f.truth || bo.Op == token.EQL && !f.truth) {
+					continue
+				}
+				for _, side := range []ssa.Value{bo.X, bo.Y} {
+					if u, ok := p.origin(side).(*ssa.UnOp); ok && u.Op == token.MUL {
+						if fa, ok := u.X.(*ssa.FieldAddr); ok && p.origin(addrRoot(fa)) == hdr && fieldName(fieldKeyAddr(fa)) == "SSRC" {
+							foreign = true
+						}
+					}
+				}
+			}
+			if foreign {
+				continue
+			}
+			if !isKeep(entry) && pathAvoiding(entry, w, isKeep) {
+				bad = append(bad, fmt.Sprintf("the forward at %s can be reached without the packet having been kept for the batch", p.instrPos(w)))
+			}
+		}
+		key := closureKey(c) + ":kept"
+		if len(bad) > 0 {
+			o.bad("P4", key, p.Pos(fn.Pos()), strings.Join(dedupe(bad), "; ")+": the batch handed to the encoder then has a hole, is refused as non-consecutive, and a whole group of media packets leaves unprotected")
+		} else {
+			o.ok("P4", key, p.Pos(fn.Pos()), fmt.Sprintf("%d forward(s) of the protected stream's packets, each after the packet was kept (%d keeping statement(s))", len(id), keeps))
 		}
 	}
 	// ---- P1 ----
@@ -1225,6 +1318,136 @@ func q3Charge(p *Prog, o *obls, cons *ssa.Function, qs queueSpec) {
 				}
 			}
 		}
+	}
+	// what is tested is what is charged: the amount the budget is compared with and the amount of the charge are the
+	// same quantity (the same non-constant sources under the same constant factor, conversions aside). A test against
+	// a capped or otherwise different cost than the one charged lets a packet pass a test the charge then fails — the
+	// limiter refuses a request above its burst without deducting anything, the result is not looked at, and the
+	// packet leaves for free.
+	// tokens are only ever taken: a charge with a negated amount gives tokens *back* — a refund for a packet whose
+	// downstream write failed lets the drain loop go on in the same tick with the budget restored, and everything
+	// handed to a failing writer leaves uncharged
+	for _, w := range writes {
+		instrsOf(w.Parent(), func(in ssa.Instruction) {
+			c, ok := in.(*ssa.Call)
+			if !ok || !isLimiterCall(c, "AllowN", "ReserveN") {
+				return
+			}
+			args := c.Call.Args
+			if !c.Call.IsInvoke() && len(args) > 0 {
+				args = args[1:]
+			}
+			for _, a := range args {
+				if _, _, isInt := intInfo(a.Type()); !isInt {
+					continue
+				}
+				neg := false
+				switch x := p.origin(a).(type) {
+				case *ssa.UnOp:
+					neg = x.Op == token.SUB
+				case *ssa.BinOp:
+					neg = x.Op == token.SUB && isConstInt(x.X, 0)
+				case *ssa.Const:
+					if v, ok := constInt64(x); ok && v < 0 {
+						neg = true
+					}
+				}
+				if neg {
+					bad = append(bad, fmt.Sprintf("the charge at %s is made with a negated amount: tokens are handed back to the limiter, and what was released against them leaves unaccounted", p.instrPos(c)))
+				}
+			}
+		})
+	}
+	var quantity func(v ssa.Value, leaves map[string]bool, consts *[]string, d int)
+	quantity = func(v ssa.Value, leaves map[string]bool, consts *[]string, d int) {
+		v = p.origin(v)
+		if d > 6 {
+			leaves["…"] = true
+			return
+		}
+		switch x := v.(type) {
+		case *ssa.Const:
+			if x.Value != nil {
+				*consts = append(*consts, x.Value.String())
+			}
+		case *ssa.Convert:
+			quantity(x.X, leaves, consts, d+1)
+		case *ssa.ChangeType:
+			quantity(x.X, leaves, consts, d+1)
+		case *ssa.BinOp:
+			if x.Op == token.MUL || x.Op == token.ADD || x.Op == token.SHL {
+				quantity(x.X, leaves, consts, d+1)
+				quantity(x.Y, leaves, consts, d+1)
+				return
+			}
+			leaves[x.Op.String()+"("+p.pureKey(x.X)+","+p.pureKey(x.Y)+")"] = true
+		case *ssa.Call:
+			// the same measure of "the packet" — by callee, not by which copy of the head packet it is applied to (the
+			// test looks at queue[0], the charge at the local it was popped into)
+			k := calleeName(&x.Call) + "("
+			if b := builtinName(&x.Call); b != "" {
+				k = b + "(" + x.Call.Args[0].Type().String()
+			}
+			leaves[k+")"] = true
+		default:
+			if k := p.pureKey(v); k != "" {
+				leaves[k] = true
+			} else {
+				leaves[fmt.Sprintf("%T@%s", v, p.instrPosV(v))] = true
+			}
+		}
+	}
+	for _, w := range writes {
+		F := w.Parent()
+		instrsOf(F, func(in ssa.Instruction) {
+			bo, ok := in.(*ssa.BinOp)
+			if !ok || !isComparison(bo.Op) {
+				return
+			}
+			var tested ssa.Value
+			if isLimiterCall(p.origin(bo.X), "Budget", "Tokens", "TokensAt") {
+				tested = bo.Y
+			} else if isLimiterCall(p.origin(bo.Y), "Budget", "Tokens", "TokensAt") {
+				tested = bo.X
+			}
+			if tested == nil {
+				return
+			}
+			instrsOf(F, func(in2 ssa.Instruction) {
+				c, ok := in2.(*ssa.Call)
+				if !ok || !isLimiterCall(c, "AllowN", "ReserveN") || !instrDominates(c, w) {
+					return
+				}
+				args := c.Call.Args
+				if !c.Call.IsInvoke() && len(args) > 0 {
+					args = args[1:]
+				}
+				var amount ssa.Value
+				for _, a := range args {
+					if _, _, isInt := intInfo(a.Type()); isInt {
+						amount = a
+					}
+				}
+				if amount == nil {
+					return
+				}
+				lt, lc := map[string]bool{}, map[string]bool{}
+				var ct, cc []string
+				quantity(tested, lt, &ct, 0)
+				quantity(amount, lc, &cc, 0)
+				sort.Strings(ct)
+				sort.Strings(cc)
+				same := len(lt) == len(lc) && strings.Join(ct, "*") == strings.Join(cc, "*")
+				for k := range lt {
+					if !lc[k] {
+						same = false
+					}
+				}
+				if !same {
+					bad = append(bad, fmt.Sprintf("the budget is tested against %s (at %s) but the charge at %s is for %s: a packet that passes the test can fail the charge, which then deducts nothing — its result is not looked at — and the packet leaves unaccounted", shortExpr(p, tested), p.instrPos(bo), p.instrPos(c), shortExpr(p, amount)))
+				}
+			})
+		})
 	}
 	if len(bad) > 0 {
 		o.bad("Q3", key, p.Pos(cons.Pos()), strings.Join(dedupe(bad), "; "))
